@@ -415,7 +415,28 @@ def gen_extension(st, schema, counter):
                      if isinstance(t, InputObjectType))
         if ins:
             t = ins[st.below(len(ins), "ext_t")]
-            return kind, "extend input %s {\n  ext_%d: Int\n}" % (t, k)
+            # the new field's type: a built-in, or an enum / custom scalar /
+            # input object the schema already has
+            known = sorted(
+                n for n, x in schema.types.items()
+                if not n.startswith("__") and n not in _struct.SPECIFIED
+                and (isinstance(x, (InputObjectType, ScalarType))
+                     or (hasattr(x, "values")
+                         and not isinstance(x, InputObjectType))))
+            # (not one that would close a cycle of input objects: the builder
+            # recurses without end on self-referencing input types -- a C11
+            # matter, DESIGN 8.5)
+            def reaches(a, seen=()):
+                x = schema.types.get(a)
+                if a == t:
+                    return True
+                if not isinstance(x, InputObjectType) or a in seen:
+                    return False
+                return any(reaches(_named(f.type).name, seen + (a,))
+                           for f in x.fields)
+            known = [n for n in known if not reaches(n)]
+            ft = (["Int"] + known)[st.below(1 + len(known), "ext_ft")]
+            return kind, "extend input %s {\n  ext_%d: %s\n}" % (t, k, ft)
     if kind == "union-member":
         unions = sorted(n for n, t in schema.types.items()
                         if isinstance(t, UnionType))
